@@ -61,6 +61,8 @@ def job(j):
     codes = sorted(set(c for c, a in fsweep.read_problem_log(plog)))
     if rc2 != 0:
         bad.append('e2fsck -fn exits %s on the fresh filesystem: %s' % (rc2, out2[-300:]))
+    elif codes and cid.startswith('badblocks/') and set(codes) <= {0x01001B, 0x01001C}:
+        pass        # "Warning: Group N's superblock / copy of the group descriptors has a bad block": information about a listed bad block inside a backup, not an inconsistency
     elif codes:
         # e2fsck forgets some problems it declined to fix under -n when it computes its exit status (known finding of C02); a fresh filesystem on which
         # e2fsck asks any repair question is not consistent, whatever the exit status says
@@ -182,6 +184,13 @@ def main(tier, only=None):
                 if name == 'hurd' and isz != 128: continue
                 for s in ((3000, 9000) if quick else (1500, 3000, 9000, 20000)):
                     jobs.append(('dirty/%s/lazy%d/b%d/I%d/%dk' % (name, lazy, bs, isz, s), o + ['-b', str(bs), '-I', str(isz), '-E', 'nodiscard,lazy_itable_init=%d,lazy_journal_init=%d' % (lazy, lazy)] + (['-C', str(bs * 4)] if name == 'bigalloc' and bs != 1024 else []), s, bs, True))
+    # (3d) bad-block lists (-l): one bad block at the first block of groups 1..4 (groups with and without a superblock backup), inside the backup descriptors of
+    # group 1, inside its reserved GDT area, in the data area and at the very end
+    for pos, what in ((8193, 'backup-sb-g1'), (16385, 'first-block-g2-no-backup'), (24577, 'backup-sb-g3'), (32769, 'first-block-g4-no-backup'), (8194, 'backup-gdt-g1'),
+                      (8200, 'reserved-gdt-g1'), (20000, 'data'), (39999, 'last-block')):
+        bf = os.path.join(scratch(), 'bb_%d.txt' % pos); open(bf, 'w').write('%d\n' % pos)
+        for name, o in [f for f in FS if f[0] in (('ext2', 'ext4', 'ext4_64_csum', 'noresize', 'ext3') if not quick else ('ext2', 'ext4', 'noresize'))]:
+            jobs.append(('badblocks/%s/%s' % (name, what), o + ['-b', '1024', '-l', bf], 40000, 1024, False))
     # (4) pairwise feature interaction: every pair of feature toggles on top of ext4 (each feature alone is in (3)/(1); code that serves one feature often forgets another)
     TOG = ['bigalloc', 'orphan_file', '^has_journal', 'quota', 'project', 'inline_data', 'meta_bg', '^resize_inode', '64bit', 'metadata_csum', '^metadata_csum', 'sparse_super2', 'ea_inode', '^flex_bg',
            '^extent', 'uninit_bg', 'encrypt', 'casefold', 'mmp', 'large_dir', '^huge_file', '^dir_index', 'fast_commit', 'stable_inodes', 'verity', '^sparse_super', '^ext_attr', 'metadata_csum_seed']
